@@ -29,7 +29,7 @@ def canon(item):
 def run(chk, tier):
     P = Prog("default")
     chk.configs.add("default")
-    for r in (r_helpers, r_specifiers, r_composites, r_pads, r_numeric_writers, r_wallclock, r_absint):
+    for r in (r_helpers, r_specifiers, r_composites, r_pads, r_numeric_writers, r_wallclock, r_fraction_base, r_absint):
         chk.guarded(r, P, tier)
     chk.assume("the rendered text for each value (week-number formulas, 12-hour clock values, name lookup, offset rounding) is not decided; the documented table is specs/tables/strftime_spec.py")
     return {
@@ -162,3 +162,23 @@ def r_absint(chk, P, tier):
     digits = [o for o in eng.obl.values() if o.kind == "digit"]
     chk.rule("DIGIT.sites", "digit-domain obligations exist for the single/two-digit writers", floor=1)
     chk.expect(len(digits) >= 4, "digit obligations", "only %d `b'0' + v` obligations were generated" % len(digits))
+
+
+def r_fraction_base(chk, P, tier):
+    """%.f / %.3f / ... : the nanosecond value that decides the width (zero? multiple of 10^3 / 10^6?) and the value that is printed are the same
+    term on every path (the leap-second representation nanosecond() >= 10^9 must be reduced before BOTH uses or neither)"""
+    from rules import path_bases
+    chk.rule("SIB.fraction_base", "in format_fixed the sub-second value tested and the sub-second value printed are one and the same term on every path", floor=4)
+    fn = "format::formatting::DelayedFormat::<I>::format_fixed"
+    n1 = 0
+    worst = None
+    for p in Sym(P, fn).paths(max_paths=20000):
+        b = path_bases(p, lambda x: is_call(x) and str(x[1]).endswith("::nanosecond"), (1000, 1000000))
+        if len(b) == 1:
+            n1 += 1
+        elif len(b) > 1 and worst is None:
+            worst = sorted(pp(x)[:70] for x in b)
+    chk.expect(worst is None, "single base", "format_fixed tests and prints different sub-second values on one path: %s" % worst, loc=P.loc(fn))
+    for k in range(min(n1, 3)):
+        chk.ok("path with one base #%d" % (k + 1))
+    chk.expect(n1 >= 8, "fraction paths found", "only %d paths of format_fixed use nanosecond() (anchor lost)" % n1)
